@@ -281,6 +281,67 @@ func checkC03(c *core.Check) {
 			specs[id] = a
 		}
 	}
+	// 2c. template pairs whose inner nodes derive the same route function name (spec/RouteNames.tla): numbered apart
+	// by the generator, they must still route as their templates say
+	if rsets, ok := routeNameSets(c, false); ok {
+		n := 60
+		if thorough {
+			n = 600
+		}
+		step := len(rsets)/n + 1
+		a := &aspec.ASpec{Base: aspec.Base{Form: "none"}, SpecName: "openapi.yaml", Flags: aspec.Flags{APIHandler: true, DoNotEdit: true}, Security: aspec.Sec{K: "none"}}
+		g := pGroup{Pkg: "rn0", ASpec: a, API: driver.APIConfig{Mw: 1, NotFound: true}}
+		vals := []string{"a", "d", "ad", "a_d", "Ad", "1", "zz", ""}
+		k := 0
+		for i := rng.Intn(step); i < len(rsets); i += step {
+			prefix := fmt.Sprintf("k%04d", k)
+			k++
+			seen := map[string]bool{}
+			for ti, t := range rsets[i].T {
+				mt := append([]aspec.Seg{{K: "lit", S: prefix}}, t...)
+				op := simpleOp("GET", mt)
+				op.OpID = fmt.Sprintf("%sOp%d", prefix, ti)
+				a.Paths = append(a.Paths, aspec.PathItem{Template: mt, Ops: []aspec.Op{op}})
+			}
+			// every instantiation of either template over the literals and names of the universe, plus one level less / more
+			for _, t := range rsets[i].T {
+				var paths []string
+				paths = []string{"/" + prefix}
+				for _, sg := range t {
+					var next []string
+					for _, p := range paths {
+						if sg.K == "lit" {
+							next = append(next, p+"/"+sg.S)
+							continue
+						}
+						for _, v := range vals {
+							next = append(next, p+"/"+v)
+						}
+					}
+					for _, p := range paths {
+						if !seen[p] {
+							seen[p] = true
+							g.Cases = append(g.Cases, mkReq(newCase(), "GET", p, nil, a))
+						}
+					}
+					paths = next
+				}
+				for _, p := range paths {
+					for _, q := range []string{p, p + "/s"} {
+						if !seen[q] {
+							seen[q] = true
+							g.Cases = append(g.Cases, mkReq(newCase(), "GET", q, nil, a))
+						}
+					}
+				}
+			}
+		}
+		specs["rn0"] = a
+		groups = append(groups, g)
+		c.Cov["route_name_collision_sets_routed"] = k
+	} else {
+		return
+	}
 	run, ok := runPipeline(c, specs, groups)
 	if !ok {
 		return
